@@ -58,6 +58,7 @@ P == CASE Profile = "c04q" ->
              bodies |-> {"plain", "def", "guard", "testX", "incq"}, stmts |-> {"qh", "ah", "qg", "ag", "testX", "defX", "dead"},
              maxmain |-> 3, nmains |-> 2,
              idirs |-> {<<Iu("inc"), Iu("sys")>>, <<Iu("inc"), Is("sys")>>, <<Iu("bld"), Iu("inc"), Iu("sys")>>,
+                        <<Iu("sys"), Iu("inc"), Iu("bld")>>,      \* the same SET of directories in another order
                         <<Iu("ext"), Iu("inc"), Is("sys")>>},
              forced |-> {<<>>}, nents |-> 3, plats |-> <<"p1", "p2", "p3">>]
       [] Profile = "c10" ->
